@@ -292,7 +292,14 @@ def one_call(rng, g, dp, lab, emit, col):
                                 ("set_feed_mode", "1/time"), ("set_length_units", "in"),
                                 ("set_length_units", "mm"), ("set_plane", "zx"), ("set_plane", "xy"),
                                 ("query", "position"), ("query", "temperature"), ("coolant_on", "flood"),
-                                ("coolant_off", None), ("tool_off", None), ("power_off", None)])
+                                ("coolant_off", None), ("tool_off", None), ("power_off", None),
+                                ("emergency_halt", "door open"), ("pause", True), ("pause", False),
+                                ("stop", True), ("stop", False), ("wait", None)])
+        if name in ("pause", "stop", "wait"):
+            if g.state.is_tool_active:
+                g.tool_off()
+            if g.state.is_coolant_active:
+                g.coolant_off()
         if name == "coolant_on" and g.state.is_coolant_active:
             name, arg = "coolant_off", None
         fn = (lambda: getattr(g, name)(arg)) if arg is not None else (lambda: getattr(g, name)())
